@@ -180,14 +180,14 @@ Proof.
 Qed.
 
 (* ------------------------------------------------------------------ the scanner side *)
-(* l, read by string_re's body scanner from escape state e, contains no unescaped quote and no
-   raw CR / LF; the escape state after l *)
+(* l, read by string_re's body scanner from escape state e, contains no unescaped quote, no raw
+   CR / LF and no non-ASCII character right after an unescaped backslash; the escape state after l *)
 Fixpoint safe (q : N) (e : bool) (l : str) : option bool :=
   match l with
   | [] => Some e
   | c :: r =>
       if (c =? 10) || (c =? 13) then None
-      else if e then safe q false r
+      else if e then (if 128 <=? c then None else safe q false r)
       else if c =? 92 then safe q true r
       else if c =? q then None
       else safe q false r
@@ -198,7 +198,8 @@ Proof.
   induction a as [|c a IH]; intros b e e' H; cbn [safe app] in *.
   - now injection H as <-.
   - destruct ((c =? 10) || (c =? 13)); [discriminate|].
-    destruct e; [now apply IH|]. destruct (c =? 92); [now apply IH|]. destruct (c =? q); [discriminate|now apply IH].
+    destruct e; [destruct (128 <=? c); [discriminate|now apply IH]|].
+    destruct (c =? 92); [now apply IH|]. destruct (c =? q); [discriminate|now apply IH].
 Qed.
 
 Lemma scan_body_app : forall q a r e e', safe q e a = Some e' ->
@@ -208,7 +209,7 @@ Proof.
   - injection H as <-. destruct (scan_body q e r); reflexivity.
   - destruct ((c =? 10) || (c =? 13)); [discriminate|]. cbn [scan_body length].
     destruct e.
-    + rewrite (IH r false e' H). destruct (scan_body q e' r); reflexivity.
+    + destruct (128 <=? c); [discriminate|]. rewrite (IH r false e' H). destruct (scan_body q e' r); reflexivity.
     + destruct (c =? 92).
       * rewrite (IH r true e' H). destruct (scan_body q e' r); reflexivity.
       * destruct (c =? q); [discriminate|]. rewrite (IH r false e' H). destruct (scan_body q e' r); reflexivity.
@@ -223,8 +224,19 @@ Proof.
   { intro t. destruct c as [|p]; [reflexivity|].
     do 4 (destruct p as [p|p|]; try reflexivity); try lia; destruct p; try reflexivity; lia. }
   rewrite Hn. f_equal.
-  destruct e; [exact (IH r _ _ H)|]. destruct (c =? 92); [exact (IH r _ _ H)|].
+  destruct e; [destruct (128 <=? c); [discriminate|exact (IH r _ _ H)]|]. destruct (c =? 92); [exact (IH r _ _ H)|].
   destruct (c =? q); [discriminate|exact (IH r _ _ H)].
+Qed.
+
+Lemma protect_app : forall q a r e e', safe q e a = Some e' -> protect_go e (a ++ r) = a ++ protect_go e' r.
+Proof.
+  induction a as [|c a IH]; intros r e e' H; cbn [safe app] in *; [now injection H as <-|].
+  destruct ((c =? 10) || (c =? 13)); [discriminate|]. cbn [protect_go].
+  destruct e.
+  - destruct (128 <=? c); [discriminate|]. now rewrite (IH r false e' H).
+  - destruct (c =? 92) eqn:E92.
+    + apply N.eqb_eq in E92. subst c. now rewrite (IH r true e' H).
+    + destruct (c =? q); [discriminate|]. now rewrite (IH r false e' H).
 Qed.
 
 Definition safe_ok (st : style) (q c : N) : bool :=
@@ -295,6 +307,13 @@ Proof.
   rewrite encode_cons, (normalize_app nl q _ _ false false) by now apply char_safe. now rewrite IH.
 Qed.
 
+Lemma encode_protect : forall st q v, In st styles -> In q [39; 34] -> valid v ->
+  protect (encode st q v) = encode st q v.
+Proof.
+  intros st q v Hs Hq Hv. unfold protect. induction Hv as [|c v Hc Hv IH]; [reflexivity|].
+  rewrite encode_cons, (protect_app q _ _ false false) by now apply char_safe. now rewrite IH.
+Qed.
+
 Lemma encode_decode : forall st q v, In st styles -> In q [39; 34] -> valid v ->
   ufeed UNormal (bsr (encode st q v)) = inl (UNormal, v).
 Proof.
@@ -306,7 +325,7 @@ Lemma string_roundtrip_convert : forall nl st q v, In st styles -> In q [39; 34]
   convert nl (encode st q v) = inl v.
 Proof.
   intros nl st q v Hs Hq Hv. unfold convert, unicode_escape.
-  rewrite encode_normalize, encode_decode by assumption. cbn [ufinish]. now rewrite app_nil_r.
+  rewrite encode_normalize, encode_protect, encode_decode by assumption. cbn [ufinish]. now rewrite app_nil_r.
 Qed.
 
 Lemma string_roundtrip_lex : forall st q v rest, In st styles -> In q [39; 34] -> valid v ->
@@ -644,3 +663,18 @@ Qed.
 
 Lemma convert_config_independent : forall nl nl' body, no_raw_breaks body = true -> convert nl body = convert nl' body.
 Proof. intros nl nl' body H. unfold convert. now rewrite !normalize_no_breaks. Qed.
+
+(* ------------------------------------------------------------------ unknown escapes *)
+Lemma unknown_escape_non_ascii : forall nl c, 128 <= c -> c < 1114112 -> convert nl [92; c] = inl [92; c].
+Proof.
+  intros nl c H1 H2. unfold convert, unicode_escape.
+  assert (Hn : no_raw_breaks [92; c] = true).
+  { cbn [no_raw_breaks forallb]. assert ((c =? 10) = false) as -> by (apply N.eqb_neq; lia).
+    assert ((c =? 13) = false) as -> by (apply N.eqb_neq; lia). reflexivity. }
+  rewrite (normalize_no_breaks nl _ Hn). unfold protect. cbn [protect_go N.eqb Pos.eqb].
+  assert ((128 <=? c) = true) as -> by (apply N.leb_le; exact H1).
+  unfold bsr. cbn [flat_map]. rewrite !bsr_char_ascii by lia. rewrite app_nil_r. cbn [app].
+  change (92 :: 92 :: bsr_char c) with ([92; 92] ++ bsr_char c). rewrite ufeed_app.
+  change (ufeed UNormal [92; 92]) with (@inl _ uerr (UNormal, [92])). cbv beta iota.
+  rewrite (bsr_char_ok c H1 H2). cbn [ufinish app]. reflexivity.
+Qed.
